@@ -38,7 +38,8 @@ ASSUMPTIONS = [
     'CPython re: the two anchored ISO patterns are re-implemented by hand-written scanners over ASCII; tied by Gen/Regex + correspondence',
 ]
 TRUSTED = ['harness/props/c16_tzworker.py (Python side per TZ in a subprocess); zoneinfo + libc as reference for UTC offsets and existence of local times; '
-           'datetime.timezone(fixed offset) as reference zone for POSIX fixed-offset TZ strings']
+           'datetime.timezone(fixed offset) as reference zone for POSIX fixed-offset TZ strings; C localtime() (time.localtime) of the POSIX timestamp as reference for the '
+           'normalised local value of host-supplied aware datetimes (dt-forms)']
 
 ZONES = ['UTC', 'America/New_York', 'Europe/London', 'Asia/Kolkata', 'Asia/Kathmandu', 'Australia/Lord_Howe', 'Pacific/Chatham', 'Etc/GMT+12']
 # "whatever that zone is": further host configurations, each run at a reduced budget.
@@ -776,7 +777,284 @@ def check_host(ctx, sh, zone, cases, resps):
             ctx.witness(oracle, key, expected, actual)
 
 
-def stream_iso(ctx, n_rt, n_text, n_arith, zones=None, n_host=0):
+# --- host input FORMS for every datetime consumer ----------------------------------------------------------------------
+
+FORMS_RULE = ('per TZ: every datetime CONSUMER (the seven getters, datetimeISOFormat with isDate absent / false / true, stringNew, jsonStringify flat and nested, '
+              'd + n, n + d, d - e, the six comparisons, dataSort ascending / descending on a datetime field) on every HOST INPUT FORM: naive datetime '
+              '(also fold=1, sub-millisecond), date, aware datetimes with their own offset (whole hours -12:00..+14:00, :30 / :45 / quarter-hour offsets, '
+              'sub-minute and sub-second offsets, UTC, ZoneInfo zones incl. the process zone itself, a host-defined tzinfo class), datetime / date subclasses; '
+              'instants placed at day / month / year boundaries and offset transitions of the PROCESS zone, of the value\'s OWN offset and of UTC, so that '
+              'the value\'s own calendar day differs from the local one; 2-6 values per case (a third of them the same instant in another form), library '
+              'calls and again inside execute_script with the values as host globals. Oracle (independent of bare_script): C localtime() of the POSIX '
+              'timestamp, cross-checked with zoneinfo\'s astimezone() of it, for aware values; the wall time itself for naive ones / dates; every consumer '
+              'must act on that normalised local value. The Lean model has no tzinfo / fold / subclass notion: it is tied in on the normalised value only '
+              '(add, isoFormat); non-trivial = the case holds an aware value whose own calendar date differs from the local one')
+EDGE_TIMES = [(0, 0, 0, 0), (0, 0, 0, 1), (0, 0, 1, 0), (0, 14, 59, 999), (0, 15, 0, 0), (0, 29, 59, 999), (0, 30, 0, 0), (0, 44, 59, 999), (0, 45, 0, 0),
+              (0, 59, 59, 999), (1, 0, 0, 0), (1, 59, 59, 999), (2, 30, 0, 0), (5, 29, 59, 999), (5, 30, 0, 0), (5, 45, 0, 0), (9, 59, 59, 999), (10, 0, 0, 0),
+              (11, 59, 59, 999), (12, 0, 0, 0), (13, 59, 59, 999), (14, 0, 0, 0), (18, 14, 59, 999), (18, 15, 0, 0), (18, 30, 0, 0), (22, 59, 59, 999),
+              (23, 0, 0, 0), (23, 15, 0, 0), (23, 30, 0, 0), (23, 45, 0, 0), (23, 59, 59, 0), (23, 59, 59, 999)]
+REAL_OFFSETS_MIN = [-690, -630, -570, -510, -270, -210, -150, 20, 90, 150, 210, 270, 330, 345, 390, 450, 525, 570, 630, 690, 765, 825]
+SUBMIN_OFFSETS_S = [1, -1, 30, -30, 59, -59, 61, 1172, -1172, -17762, 21208, 20928, -35670, 86399, -86399, 50399, -43199]
+MAX_US = 3652059 * 86400 * 10 ** 6
+_ZONE_TZ = {}
+
+
+def zone_tzinfo(zone):
+    """tzinfo of a process zone name of this module (tz database name or POSIX '<+hhmm>..' fixed offset) - generator side only"""
+    if zone not in _ZONE_TZ:
+        m = re.fullmatch(r'<([+-])([0-9]{2})([0-9]{2})>.*', zone)
+        if m:
+            _ZONE_TZ[zone] = datetime.timezone(datetime.timedelta(minutes=(int(m.group(2)) * 60 + int(m.group(3))) * (-1 if m.group(1) == '-' else 1)))
+        else:
+            import zoneinfo  # pylint: disable=import-outside-toplevel
+            _ZONE_TZ[zone] = zoneinfo.ZoneInfo(zone)
+    return _ZONE_TZ[zone]
+
+
+def us_of(d):
+    return ((d.toordinal() - 1) * 86400 + d.hour * 3600 + d.minute * 60 + d.second) * 10 ** 6 + d.microsecond
+
+
+def td_us(td):
+    return (td.days * 86400 + td.seconds) * 10 ** 6 + td.microseconds
+
+
+def forms_anchor(rng, zone):
+    """A wall time on a day / month / year boundary (or next to an offset transition of the process zone)."""
+    y = rng.choice([rng.randint(100, 9000), rng.randint(1900, 2100), rng.randint(1970, 2037), 2024, 2025, 1999, 2000, 2100, 100, 9000])
+    r = rng.random()
+    days = transition_days(zone)
+    if r < 0.3:
+        y, mo, d = rng.choice([(y, 12, 31), (y, 1, 1), (y - 1 if y > 100 else y, 12, 31)])
+    elif r < 0.55:
+        mo = rng.choice([rng.randint(1, 12), 2, 3])
+        d = rng.choice([1, (datetime.date(y + mo // 12, mo % 12 + 1, 1) - datetime.timedelta(days=1)).day])
+    elif r < 0.7 and days:
+        y, mo, d = rng.choice(days)
+        d = max(1, min(28, d + rng.choice([0, 0, -1, 1])))
+    else:
+        mo, d = rng.randint(1, 12), rng.randint(1, 28)
+    if rng.random() < 0.65:
+        h, mi, s, ms = rng.choice(EDGE_TIMES)
+    else:
+        h, mi, s, ms = rng.randint(0, 23), rng.randint(0, 59), rng.randint(0, 59), rng.choice([0, 1, 500, 999, rng.randint(0, 999)])
+    sub = rng.choice([1, 499, 500, 501, 999]) if rng.random() < 0.3 else 0
+    return datetime.datetime(y, mo, d, h, mi, s, ms * 1000 + sub)
+
+
+def forms_offset(rng):
+    r = rng.random()
+    if r < 0.3:
+        return {'s': rng.randint(-12, 14) * 3600}
+    if r < 0.55:
+        return {'s': rng.choice(REAL_OFFSETS_MIN) * 60}
+    if r < 0.7:
+        return {'s': rng.randint(-48, 56) * 900}
+    if r < 0.8:
+        return {'s': rng.randint(-720, 840) * 60}
+    if r < 0.93:
+        return {'s': rng.choice(SUBMIN_OFFSETS_S + [rng.randint(-43200, 50400)])}
+    return {'s': rng.choice([0, 19800, -18000, 3599]), 'us': rng.choice([1, -1, 500000, 999999, -999999])}
+
+
+def forms_value(rng, zone, avail, prev=None):
+    anchor = forms_anchor(rng, zone)
+    wall = [anchor.year, anchor.month, anchor.day, anchor.hour, anchor.minute, anchor.second, anchor.microsecond]
+    r = rng.random()
+    if r < 0.2:
+        form = {'wall': wall}
+        if rng.random() < 0.35:
+            form['fold'] = 1
+    elif r < 0.3:
+        return {'cls': rng.choice(['date', 'datesub']), 'wall': wall}
+    else:
+        r = rng.random()
+        if r < 0.1:
+            tz = 'utc'
+        elif r < 0.25 and (avail or not zone.startswith('<')):
+            tz = rng.choice(avail + ([zone, zone] if not zone.startswith('<') else []))
+        else:
+            tz = forms_offset(rng)
+            if rng.random() < 0.12:
+                tz['custom'] = 1
+        if prev is not None and 'utc_us' in prev and rng.random() < 0.5:
+            utc_us = prev['utc_us']                 # the same instant in another form
+        else:
+            mode = rng.choice(['local', 'local', 'own', 'own', 'utc'])
+            if mode == 'utc':
+                off = 0
+            elif mode == 'local':
+                off = td_us(anchor.replace(tzinfo=zone_tzinfo(zone)).utcoffset())
+            elif isinstance(tz, dict):
+                off = tz['s'] * 10 ** 6 + tz.get('us', 0)
+            elif tz == 'utc':
+                off = 0
+            else:
+                off = td_us(anchor.replace(tzinfo=zone_tzinfo(tz)).utcoffset())
+            utc_us = us_of(anchor) - off
+        utc_us = max(3 * 86400 * 10 ** 6, min(MAX_US - 3 * 86400 * 10 ** 6, utc_us))
+        form = {'tz': tz, 'utc_us': utc_us}
+        if rng.random() < 0.15:
+            form['fold'] = 1
+    if rng.random() < 0.25:
+        form['cls'] = 'sub'
+    return form
+
+
+def forms_cases(rng, zone, n):
+    avail = [z for z in AWARE_ZONES if zone_available(z)]
+    out = []
+    for _ in range(n):
+        vals = []
+        for _ in range(rng.choice([2, 2, 3, 4, 6])):
+            vals.append(forms_value(rng, zone, avail, prev=vals[-1] if vals and rng.random() < 0.6 else None))
+        r = rng.random()
+        if r < 0.5:
+            nn = rng.choice(TRANSITION_STEPS) * rng.choice([1, -1])
+        elif r < 0.7:
+            nn = rng.choice([0, 1, -1, 999, -999, 1000, 59999, 60000, -60000])
+        elif r < 0.9:
+            nn = rng.randint(-10 ** 8, 10 ** 8)
+        else:
+            nn = rng.randint(-10 ** 12, 10 ** 12)
+        out.append({'kind': 'forms', 'vals': vals, 'n': nn, 'nkind': rng.choice(NUMBER_KINDS)})
+    return out
+
+
+def iso_text_fields(text):
+    """ISO datetime text -> ([y, mo, d, h, mi, s, ms], offset seconds) by the strict pattern of the property (not the implementation's), else None"""
+    m = STRICT_DT.fullmatch(text) if isinstance(text, str) else None
+    if not m:
+        return None
+    frac = m.group(7) or ''
+    zone = m.group(8)
+    off = 0 if zone == 'Z' else (int(zone[1:3]) * 3600 + int(zone[4:6]) * 60) * (-1 if zone[0] == '-' else 1)
+    return [int(m.group(i)) for i in range(1, 7)] + [int((frac + '000')[:3]) if frac else 0], off
+
+
+def forms_verdicts(req, r):
+    """The property oracles of one forms case -> [(oracle, value index, expected, actual)] (empty = holds). Shared by the stream and replay."""
+    out = []
+    if r.get('skip'):
+        return out
+    n = req['n']
+    outs = r['vals']
+    refs = [o['ref'] for o in outs]
+    for i, o in enumerate(outs):
+        ref = refs[i]
+        if not ref['agree']:
+            continue                    # zoneinfo and the C library differ about this local time: no reference
+        loc = ref['local']
+        paths = [('lib', o)] + ([('script', o['script'])] if 'error' not in o['script'] else [])
+        if 'error' in o['script']:
+            out.append(('forms-script', i, 'no exception', o['script']))
+        want_sum = oracle_add(loc, n)
+        nxt = refs[(i + 1) % len(refs)]
+        d_us = ref['full_us'] - nxt['full_us']
+        sign = (d_us > 0) - (d_us < 0)
+        want_cmp = [sign < 0, sign <= 0, sign == 0, sign != 0, sign >= 0, sign > 0]
+        for path, p in paths:
+            if p.get('get') != loc:
+                out.append(('forms-getters', i, loc, {'path': path, 'got': p.get('get')}))
+            want_date = '%04d-%02d-%02d' % tuple(loc[:3])
+            if p.get('datetext') != want_date:
+                out.append(('forms-iso-date', i, want_date, {'path': path, 'got': p.get('datetext')}))
+            text = p.get('text')
+            for key in ('text', 'text_f'):
+                got = iso_text_fields(p.get(key))
+                if got is None:
+                    out.append(('forms-iso-text', i, 'a valid ISO datetime text', {'path': path, 'got': p.get(key)}))
+                elif ref['exists'] and (got[0] != loc or (ref['off'] % 60 == 0 and got[1] != ref['off'])):
+                    out.append(('forms-iso-text', i, {'local': loc, 'offset_s': ref['off']}, {'path': path, 'got': p.get(key)}))
+            if isinstance(text, str):
+                want_s = {'str': text, 'json': json.dumps(text), 'json_n': '{"a":[' + json.dumps(text) + ']}'}
+                got_s = {k: p.get(k) for k in want_s}
+                if got_s != want_s:
+                    out.append(('forms-string', i, want_s, {'path': path, 'got': got_s}))
+            if p.get('sum') != want_sum or p.get('sum_r') != want_sum:
+                out.append(('forms-add-ms', i, want_sum, {'path': path, 'd+n': p.get('sum'), 'n+d': p.get('sum_r')}))
+            if nxt['agree']:
+                diff = p.get('diff')
+                slack = 0 if d_us % 1000 == 0 else 500 + abs(d_us) // 2 ** 50 + 1
+                if isinstance(diff, bool) or not isinstance(diff, int) or abs(diff * 1000 - d_us) > slack:
+                    out.append(('forms-sub', i, d_us / 1000, {'path': path, 'got': diff}))
+                if p.get('cmp') != want_cmp:
+                    out.append(('forms-compare', i, want_cmp, {'path': path, 'got': p.get('cmp')}))
+    if all(ref['agree'] for ref in refs):
+        keys = [ref['full_us'] for ref in refs]
+        for name, sgn in (('asc', 1), ('desc', -1)):
+            order = r['sort'].get(name) if isinstance(r.get('sort'), dict) else None
+            ok = isinstance(order, list) and sorted(order) == list(range(len(keys)))
+            ok = ok and all(sgn * keys[a] <= sgn * keys[b] for a, b in zip(order, order[1:]))
+            if not ok:
+                out.append(('forms-sort', None, {'order': name, 'keys': keys}, order))
+    return out
+
+
+def forms_tags(form, ref):
+    cls = form.get('cls', 'datetime')
+    tz = form.get('tz')
+    tags = ['date' if cls in ('date', 'datesub') else 'naive' if tz is None else 'aware']
+    if cls in ('sub', 'datesub'):
+        tags.append('subclass')
+    if form.get('fold'):
+        tags.append('fold=1')
+    if isinstance(tz, dict):
+        s = tz['s']
+        tags.append('off-subsecond' if tz.get('us') else 'off-subminute' if s % 60 else 'off-hour' if s % 3600 == 0 else
+                    'off-:30' if s % 3600 == 1800 else 'off-:45/:15' if s % 900 == 0 else 'off-minutes')
+        if tz.get('custom'):
+            tags.append('host-tzinfo')
+    elif tz is not None:
+        tags.append('off-utc' if tz == 'utc' else 'off-zoneinfo')
+    if ref is not None:
+        if ref.get('own') is not None and ref['own'] != ref['local'][:3]:
+            tags.append('own-day!=local-day')
+            if ref['own'][:2] != ref['local'][:2]:
+                tags.append('own-year!=local-year' if ref['own'][0] != ref['local'][0] else 'own-month!=local-month')
+        if ref.get('ambiguous'):
+            tags.append('in-fold')
+        if not ref.get('exists'):
+            tags.append('in-gap')
+        if not ref.get('agree'):
+            tags.append('zoneinfo-vs-libc-differ')
+        if ref.get('us'):
+            tags.append('sub-ms')
+    return tags
+
+
+def check_forms(ctx, sf, zone, cases, resps):
+    mreqs = []
+    for req, r in zip(cases, resps):
+        if r.get('skip'):
+            continue
+        for o in r['vals']:
+            ref = o['ref']
+            mreqs.append({'op': 'add', 'dt': ref['local'], 'n': req['n']})
+            mreqs.append({'op': 'isoFormat', 'dt': ref['local'], 'off': ref['off'], 'us': ref['us']})
+    mresps = iter(ctx.driver.batch(mreqs))
+    for req, r in zip(cases, resps):
+        key = {'zone': zone, 'vals': req['vals'], 'n': req['n'], 'nkind': req['nkind']}
+        if r.get('skip'):
+            sf.case(key, nontrivial=False, tags=[zone, 'no-value-in-range'])
+            continue
+        tags = set()
+        for form, o in zip(req['vals'], r['vals']):
+            tags.update(forms_tags(form, o['ref']))
+        sf.case(key, nontrivial='own-day!=local-day' in tags, tags=[zone, 'k=%d' % len(req['vals'])] + sorted(tags))
+        for i, o in enumerate(r['vals']):
+            m_add, m_fmt = next(mresps), next(mresps)
+            ref = o['ref']
+            if not ref['agree']:
+                continue
+            ctx.compare('dt-forms', dict(key, i=i, what='add'), o.get('sum'), m_add.get('dt'))
+            if ref['exists']:
+                ctx.compare('dt-forms', dict(key, i=i, what='format'), [o.get('text'), o.get('datetext')], [m_fmt.get('text'), m_fmt.get('date')])
+        for oracle, i, expected, actual in forms_verdicts(req, r):
+            ctx.witness(oracle, dict(key, i=i), expected, actual)
+
+
+def stream_iso(ctx, n_rt, n_text, n_arith, zones=None, n_host=0, n_forms=0):
     st = ctx.stream('dt-iso', 'per TZ (Python side in a subprocess with TZ=<zone>; 8 full-budget zones + always-on negative-offset-with-minutes zones + a '
                               'per-seed rotation of classed tz database zones, POSIX fixed offsets -23:59..+23:59 and random tz database names at a '
                               'reduced budget): datetimeNew (a third with extra microseconds, some marked fold=1) -> datetimeISOFormat -> datetimeISOParse round trip, '
@@ -788,6 +1066,7 @@ def stream_iso(ctx, n_rt, n_text, n_arith, zones=None, n_host=0):
                                    'zoneinfo, model parser; non-trivial = text within edit distance 1 of a valid text or valid')
     sa = ctx.stream('dt-arith', ARITH_RULE)
     sh = ctx.stream('dt-host', HOST_RULE)
+    sf = ctx.stream('dt-forms', FORMS_RULE)
     missing = [z for z in (zones or ZONES) if not zone_available(z)]
     if missing:
         ctx.notes.append('zones skipped (no zoneinfo file): ' + ', '.join(missing))
@@ -803,6 +1082,8 @@ def stream_iso(ctx, n_rt, n_text, n_arith, zones=None, n_host=0):
         texts = [rec['text'] for rec in corpus('dt-iso-text')] + MALFORMED_FIXED + valid + [mutate(rng, rng.choice(valid)) for _ in range(n_text)]
         ar_cases = arith_cases(rng, n_arith - n_arith // 2) + zone_arith_cases(rng, zone, n_arith // 2)
         ho_cases = [dict(rec['req'], kind='host') for rec in corpus('dt-host') if rec.get('zone') in (None, zone)] + host_cases(rng, zone, n_host)
+        fo_cases = ([dict(rec['req'], kind='forms') for rec in corpus('dt-forms') if rec.get('zone') in (None, zone)]
+                    + forms_cases(ctx.rng('dt-forms', zone), zone, n_forms))
         # a third of the round trips start from a datetime carrying extra microseconds (what datetimeNow() returns): ISO text is cut to the millisecond
         rt_us = [rng.choice([1, 499, 500, 501, 999, rng.randint(1, 999)]) if rng.random() < 0.33 else 0 for _ in rt_cases]
         # some are marked fold=1 by the host (PEP 495): the second pass of a repeated local time, no effect elsewhere
@@ -810,11 +1091,11 @@ def stream_iso(ctx, n_rt, n_text, n_arith, zones=None, n_host=0):
         tx_sub = [rng.random() < 0.1 for _ in texts]
         reqs = ([{'kind': 'rt', 'args': a, 'us': us, 'fold': fo} for a, us, fo in zip(rt_cases, rt_us, rt_fold)]
                 + [{'kind': 'parse', 'text': t, 'sub': sub} for t, sub in zip(texts, tx_sub)]
-                + [{'kind': 'arith', 'args': a, 'n': n, 'as_int': i, 'us': us} for a, n, i, us in ar_cases] + ho_cases)
-        plans.append((zone, rt_cases, rt_us, rt_fold, valid, texts, tx_sub, ar_cases, ho_cases, reqs))
+                + [{'kind': 'arith', 'args': a, 'n': n, 'as_int': i, 'us': us} for a, n, i, us in ar_cases] + ho_cases + fo_cases)
+        plans.append((zone, rt_cases, rt_us, rt_fold, valid, texts, tx_sub, ar_cases, ho_cases, fo_cases, reqs))
     with concurrent.futures.ThreadPoolExecutor(max_workers=4) as pool:
         futures = [pool.submit(run_worker, plan[0], plan[-1]) for plan in plans]
-    for (zone, rt_cases, rt_us, rt_fold, valid, texts, tx_sub, ar_cases, ho_cases, reqs), future in zip(plans, futures):
+    for (zone, rt_cases, rt_us, rt_fold, valid, texts, tx_sub, ar_cases, ho_cases, fo_cases, reqs), future in zip(plans, futures):
         resps = future.result()
         bad = [r for r in resps if 'worker_error' in r or 'bad' in r]
         if bad:
@@ -822,7 +1103,8 @@ def stream_iso(ctx, n_rt, n_text, n_arith, zones=None, n_host=0):
         rt_resps = resps[:len(rt_cases)]
         tx_resps = resps[len(rt_cases):len(rt_cases) + len(texts)]
         ar_resps = resps[len(rt_cases) + len(texts):len(rt_cases) + len(texts) + len(ar_cases)]
-        ho_resps = resps[len(rt_cases) + len(texts) + len(ar_cases):]
+        ho_resps = resps[len(rt_cases) + len(texts) + len(ar_cases):len(rt_cases) + len(texts) + len(ar_cases) + len(ho_cases)]
+        fo_resps = resps[len(rt_cases) + len(texts) + len(ar_cases) + len(ho_cases):]
 
         # ---- round trips ----
         mreqs = []
@@ -908,13 +1190,18 @@ def stream_iso(ctx, n_rt, n_text, n_arith, zones=None, n_host=0):
         # ---- host-supplied datetimes and numbers inside the zone ----
         check_host(ctx, sh, zone, ho_cases, ho_resps)
 
+        # ---- every datetime consumer on every host input form inside the zone ----
+        check_forms(ctx, sf, zone, fo_cases, fo_resps)
+
 
 def streams(ctx):
     stream_new(ctx, ctx.scale(25000, 500000), ctx.scale(2500, 50000))
     stream_arith(ctx, ctx.scale(12000, 250000))
-    stream_iso(ctx, ctx.scale(2000, 40000), ctx.scale(800, 15000), ctx.scale(400, 8000), n_host=ctx.scale(500, 6000))
+    stream_iso(ctx, ctx.scale(2000, 40000), ctx.scale(800, 15000), ctx.scale(400, 8000), n_host=ctx.scale(500, 6000),
+               n_forms=ctx.scale(250, 3000))
     # the same four streams in further host time zones (fixed always-on ones + a per-seed rotation), at a reduced budget each
-    stream_iso(ctx, ctx.scale(500, 1500), ctx.scale(150, 500), ctx.scale(100, 400), zones=extra_zones(ctx), n_host=ctx.scale(200, 800))
+    stream_iso(ctx, ctx.scale(500, 1500), ctx.scale(150, 500), ctx.scale(100, 400), zones=extra_zones(ctx), n_host=ctx.scale(200, 800),
+               n_forms=ctx.scale(80, 400))
 
 
 def search(ctx):
@@ -925,11 +1212,11 @@ def search(ctx):
     stream_arith(ctx, ctx.scale(20000, 80000), seed_name='search-arith')
     if ctx.witnesses:
         return
-    stream_iso(ctx, ctx.scale(3000, 8000), ctx.scale(1500, 3000), ctx.scale(300, 1000), n_host=ctx.scale(600, 2000))
+    stream_iso(ctx, ctx.scale(3000, 8000), ctx.scale(1500, 3000), ctx.scale(300, 1000), n_host=ctx.scale(600, 2000), n_forms=ctx.scale(400, 1500))
     if ctx.witnesses:
         return
     stream_iso(ctx, ctx.scale(600, 2000), ctx.scale(200, 600), ctx.scale(150, 500), zones=extra_zones(ctx, 'search-zones') + ZONE_POOL[:8],
-               n_host=ctx.scale(300, 1000))
+               n_host=ctx.scale(300, 1000), n_forms=ctx.scale(150, 500))
 
 
 def replay(witness):
@@ -951,6 +1238,10 @@ def replay(witness):
             return getters_s != got_s
         got = impl_new(inp['args'])
         return got.get('getters') != got['float']
+    if oracle.startswith('forms-'):
+        req = {'kind': 'forms', 'vals': inp['vals'], 'n': inp['n'], 'nkind': inp.get('nkind', 'float')}
+        r = run_worker(zone or 'UTC', [req])[0]
+        return any(o == oracle and i == inp.get('i') for o, i, _, _ in forms_verdicts(req, r))
     if oracle.startswith('host-'):
         req = {k: v for k, v in inp.items() if k != 'zone'}
         req['kind'] = 'host'
@@ -989,7 +1280,8 @@ LEVEL_TEXT = ('Theorems for ALL integer arguments (no bound): the carry chain, m
               'explicit zone hypotheses (_partial), and the parser returns null outside the two anchored shapes / for invalid fields. '
               'The Python side runs per TZ in a subprocess for the 8 zones of the quantifier plus further zones per run (negative offsets with a minute part, a per-seed '
               'rotation of tz database zones and POSIX fixed offsets); host-supplied datetimes/numbers (sub-millisecond, aware, fold=1, subclasses, dates) are '
-              'checked on the implementation side; independent oracles: date.toordinal/timedelta, zoneinfo.')
+              'checked on the implementation side, and every datetime consumer (getters, ISO text, stringNew, jsonStringify, + / -, comparisons, dataSort) is run on every host '
+              'input form against C localtime() of the POSIX timestamp (dt-forms); independent oracles: date.toordinal/timedelta, zoneinfo, libc.')
 LEVEL_NOTE = ('proof for normalisation / getters / integer arithmetic / rejection; _partial for the ISO round trip (zone abstracted by two offset '
               'functions with the existence assumption as hypothesis; LMT offsets with seconds are shown to break the round trip) and for the float '
               'rounding of datetime - datetime (relative-error model of IEEE doubles). Trusted: Lean kernel, extract.py, harness + tz worker, '
